@@ -39,12 +39,65 @@ def ModuleAccount (s : State) : Prop := ∀ d, s.bank.balOf farmAcc d = expected
 def PrincipalCovered (s : State) : Prop :=
   ∀ a id f p, getFarmer s a id = some f → getPool s id = some p → f.locked ≤ s.bank.balOf farmAcc p.lpt
 
-/-- an empty farm module on an arbitrary user ledger -/
+/-- the community pool's raw amount in denom `d` -/
+def cpoolOf (s : State) (d : Denom) : Nat := cpGet s.cp.pool d
+
+/-- an empty farm module on an arbitrary user ledger: no pool, no farmer, no escrow info, no
+proposal, empty farm / reward-collector / escrow-collector / gov accounts, and a community pool
+that the distribution module account covers -/
 def Genesis (s : State) : Prop :=
   s.pools = [] ∧ s.farmers = [] ∧ s.queue = [] ∧ s.ledger = [] ∧ s.seq = 0 ∧
-  (∀ d, s.bank.balOf farmAcc d = 0) ∧ (∀ d, s.bank.balOf collectorAcc d = 0)
+  (∀ d, s.bank.balOf farmAcc d = 0) ∧ (∀ d, s.bank.balOf collectorAcc d = 0) ∧
+  s.cp.escrow = [] ∧ s.cp.props = [] ∧
+  (∀ d, s.bank.balOf escrowAcc d = 0) ∧ (∀ d, s.bank.balOf govAcc d = 0) ∧
+  (∀ d, cpoolOf s d ≤ s.bank.balOf distrAcc d * decUnit)
 
 def Reachable (s : State) : Prop := ∃ s0 ops, Genesis s0 ∧ s = run s0 ops
+
+/-! ### community-pool farms: the escrow collector -/
+
+/-- Σ of the amounts of denom `d` in a coin list -/
+def coinSum : CoinList → Denom → Nat
+  | [], _ => 0
+  | (d', n) :: t, d => (if d' = d then n else 0) + coinSum t d
+
+/-- what one escrow info says the escrow collector holds in denom `d` -/
+def escrowHolds (d : Denom) (e : Escrow) : Nat := coinSum e.applied d + coinSum e.selfBond d
+
+/-- what the escrow collector must hold in denom `d` -/
+def expectedEscrow (s : State) (d : Denom) : Nat := AMap.sumBy (escrowHolds d) s.cp.escrow
+
+/-- C05(e): the escrow collector holds exactly the funds of the escrow infos on record:
+`balance(EscrowCollector) = Σ escrowInfos (fundApplied + fundSelfBond)`, denom by denom -/
+def EscrowAccount (s : State) : Prop := ∀ d, s.bank.balOf escrowAcc d = expectedEscrow s d
+
+/-- the deposits gov holds for the proposals on record -/
+def expectedGov (s : State) : Nat := AMap.sumBy (fun pr : Proposal => pr.deposit) s.cp.props
+
+/-- the gov module account holds exactly the recorded deposits (in the bond denom) -/
+def GovAccount (s : State) : Prop := s.bank.balOf govAcc depositDenom = expectedGov s
+
+/-- the community pool is covered by the distribution module account (raw 18-decimal units) -/
+def Backed (s : State) : Prop := ∀ d, cpoolOf s d ≤ s.bank.balOf distrAcc d * decUnit
+
+/-- what the distribution module account holds beyond the community pool (raw units): the farm
+module's paths move the account and the pool in lock-step, so this never changes -/
+def distrGap (s : State) (d : Denom) : Int := ((s.bank.balOf distrAcc d * decUnit : Nat) : Int) - (cpoolOf s d : Int)
+
+/-- gov has not finished with the proposal (deposit or voting period) -/
+def alive (pr : Proposal) : Bool := decide (pr.status = .deposit) || decide (pr.status = .voting)
+
+/-- the escrow-info table mirrors the live proposals: an escrow info exists exactly for the
+proposals gov has not finished with, and carries the proposer and the funds of the proposal's
+content; ids are below gov's sequence; keys are unique -/
+structure Tables (s : State) : Prop where
+  info   : ∀ pid e, AMap.get? s.cp.escrow pid = some e → ∃ pr, AMap.get? s.cp.props pid = some pr ∧ alive pr = true ∧
+             e.proposer = pr.proposer ∧ e.applied = pr.content.applied ∧ e.selfBond = pr.content.selfBond
+  live   : ∀ pid pr, AMap.get? s.cp.props pid = some pr → alive pr = true → ∃ e, AMap.get? s.cp.escrow pid = some e
+  fresh  : ∀ pid, s.cp.nextId ≤ pid → AMap.get? s.cp.props pid = none ∧ AMap.get? s.cp.escrow pid = none
+  ekeys  : (s.cp.escrow.map (·.1)).Nodup
+  pkeys  : (s.cp.props.map (·.1)).Nodup
+  done   : ∀ pid pr, AMap.get? s.cp.props pid = some pr → alive pr = false → pr.deposit = 0
 
 /-- C05(d), full strength: a farmer can at any height withdraw any positive amount up to the
 recorded stake (a zero amount is rejected by `ValidateBasic` since commit 67e8fd2).  FALSE of the code (F-farm-1): see `Props.C05.withdraw_can_fail`. -/
@@ -127,6 +180,45 @@ def interactionOk (pre post : State) (a : Addr) (id : PoolId) (denom : Denom) (d
       decide ((post.bank.balOf a d : Int) = (pre.bank.balOf a d : Int) - (if d = denom then dLocked else 0) + (amountOf post.resp d : Int))
   | _, _ => false
 
+/-! ### monitor clauses of the community-pool path -/
+
+/-- the denoms in which the escrow collector differs from the funds of the escrow infos -/
+def escrowAccountDiffs (s : State) : List Denom :=
+  ((s.bank.bal.filterMap fun e => if e.1.1 = escrowAcc then some e.1.2 else none) ++
+   s.cp.escrow.flatMap fun e => (e.2.applied ++ e.2.selfBond).map (·.1)).eraseDups.filter fun d =>
+    s.bank.balOf escrowAcc d != expectedEscrow s d
+
+def govAccountB (s : State) : Bool := s.bank.balOf govAcc depositDenom == expectedGov s
+
+def cpDenoms (a b : State) : List Denom :=
+  (a.cp.pool.map (·.1) ++ b.cp.pool.map (·.1) ++
+   (a.bank.bal.filterMap fun e => if e.1.1 = distrAcc then some e.1.2 else none) ++
+   (b.bank.bal.filterMap fun e => if e.1.1 = distrAcc then some e.1.2 else none)).eraseDups
+
+/-- the denoms in which the community pool exceeds the distribution module account -/
+def backedDiffs (s : State) : List Denom :=
+  (cpDenoms s s).filter fun d => decide (cpoolOf s d > s.bank.balOf distrAcc d * decUnit)
+
+/-- the denoms in which distribution account and community pool did not move in lock-step -/
+def lockDiffs (pre post : State) : List Denom :=
+  (cpDenoms pre post).filter fun d => distrGap post d != distrGap pre d
+
+/-- escrow infos ↔ live proposals; finished proposals hold no deposit -/
+def tablesB (s : State) : Bool :=
+  (s.cp.escrow.all fun e => match AMap.get? s.cp.props e.1 with
+    | some pr => alive pr
+    | none => false) &&
+  (s.cp.props.all fun e => if alive e.2 then (AMap.get? s.cp.escrow e.1).isSome else e.2.deposit == 0)
+
+instance : BEq Escrow := ⟨fun a b => a.proposer == b.proposer && a.applied == b.applied && a.selfBond == b.selfBond⟩
+
+/-- the observed community-pool projection of two states is the same -/
+def sameCp (a b : State) : Bool :=
+  sameMap a.cp.escrow b.cp.escrow &&
+  ((a.cp.props.map (·.1) ++ b.cp.props.map (·.1)).all fun k =>
+    (AMap.get? a.cp.props k).map (fun pr => (pr.status, pr.deposit)) == (AMap.get? b.cp.props k).map (fun pr => (pr.status, pr.deposit))) &&
+  ((cpDenoms a b).all fun d => cpoolOf a d == cpoolOf b d)
+
 /-- monitor memory (none needed for C05) -/
 structure Mon where
   deriving Inhabited
@@ -140,10 +232,19 @@ def check (m : Mon) (pre : State) (op : Op) (res : String) (post : State) : Mon 
     (if stakesSumB post then [] else ["clause=stakes-sum"]) ++
     -- (b) module account = stakes + budgets
     ((moduleAccountDiffs post).map fun d => s!"clause=module-account denom={d}") ++
-    -- a rejected message changes nothing
+    -- (e) the escrow collector holds exactly the funds of the escrow infos; gov the deposits;
+    -- the community pool is covered by the distribution account and moves in lock-step with it;
+    -- escrow infos mirror the live proposals
+    ((escrowAccountDiffs post).map fun d => s!"clause=escrow-account denom={d}") ++
+    (if govAccountB post then [] else ["clause=gov-account"]) ++
+    ((backedDiffs post).map fun d => s!"clause=community-pool-backed denom={d}") ++
+    ((lockDiffs pre post).map fun d => s!"clause=community-pool-lockstep denom={d}") ++
+    (if tablesB post then [] else ["clause=escrow-tables"]) ++
+    -- a rejected message changes nothing; so does gov's processing of a proposal that is not due
+    -- (a second pass / reject / failed deposit of a settled proposal)
     (match op with
      | .endBlocks _ => []
-     | _ => if res != "ok" && !(sameObserved pre post) then ["clause=rejected-unchanged"] else []) ++
+     | _ => if res != "ok" && !(sameObserved pre post && sameCp pre post) then ["clause=rejected-unchanged"] else []) ++
     -- (d) withdrawals up to the recorded stake never fail; accepted ones pay principal + accrued rewards
     (match op with
      | .unstake a id denom amt =>
